@@ -275,6 +275,12 @@ static int do_transition(const jv *line)
         al_in_call = 1;
         if (!run_call(act, &r, why, sizeof(why))) { al_in_call = 0; VD_END(); if (strstr(why, "unknown action") || strstr(why, "bad kind")) { fprintf(stderr, "vdrv: %s\n", why); return -1; } tviol(act, 1, why); return 0; }
         al_in_call = 0;
+        /* ownership observations that do not depend on which outcome the call took: borrowed memory untouched, no release of
+         * anything that is not a live block, nothing written past the end of a block */
+        { char ow[300] = "";
+          if (!cm_intact(ow, sizeof(ow))) tviol(act, 2, ow);
+          else if (al_bad_free) { snprintf(ow, sizeof(ow), "%ld release(s) of a pointer that is not a live block (double or foreign free)", al_bad_free); tviol(act, 2, ow); }
+          else if (!al_check_redzones()) { tviol(act, 2, "wrote beyond the end of an allocated block"); al_overflow = 0; } }
         for (k = 0; k < outs->n && !ok; k++) {
             const jv *post = jv_at(outs->e[k], 0), *res = jv_at(outs->e[k], 1);
             memcpy(bp, np, sizeof(bp));
